@@ -714,3 +714,138 @@ func errorsAreNotCached(c *core.Ctx) {
 		c.Pass("no-error-is-cached", "importer,vm,object,compiler", "no long-lived map holds error values")
 	}
 }
+
+// partialModeOffForOperands (C01-R12, C10-R8): a compile function that reads the
+// "compile calls to partials" flag to decide how it emits its own call compiles
+// its operands (function expression, receiver, arguments) with the flag off.  The
+// flag is state on the shared code object; left on, every call nested in the
+// arguments of a piped or spawned call is turned into a partial too, and the
+// callee receives an un-called partial instead of a value.
+func partialModeOffForOperands(c *core.Ctx) {
+	p := c.P
+	cp := p.Pkg("compiler")
+	codeT := core.MustType(cp, "Code")
+	ct := core.MustType(cp, "Compiler")
+	// the flag: the bool field of Code that some function sets to true and clears in a deferred function (C18-R2's subject)
+	var flag *types.Var
+	st := codeT.Underlying().(*types.Struct)
+	for _, fn := range repoFns(p, "compiler") {
+		for _, b := range fn.Blocks {
+			for _, in := range b.Instrs {
+				s, ok := in.(*ssa.Store)
+				if !ok {
+					continue
+				}
+				fa, ok := s.Addr.(*ssa.FieldAddr)
+				if !ok || core.NamedOf(fa.X.Type()) != codeT {
+					continue
+				}
+				f := st.Field(fa.Field)
+				if b2, ok := f.Type().Underlying().(*types.Basic); !ok || b2.Kind() != types.Bool {
+					continue
+				}
+				if k, isC := s.Val.(*ssa.Const); isC && k.Value != nil && k.Value.ExactString() == "true" {
+					flag = f
+				}
+			}
+		}
+	}
+	if flag == nil {
+		core.Undecidedf("no transient bool flag on compiler.Code found")
+	}
+	compile := p.SSAFunc(core.MustMethod(ct, "compile"))
+	isFlagAddr := func(v ssa.Value) bool {
+		fa, ok := v.(*ssa.FieldAddr)
+		return ok && fieldVar(fa) == flag
+	}
+	n := 0
+	for _, fn := range repoFns(p, "compiler") {
+		if fn.Signature.Recv() == nil || core.NamedOf(fn.Signature.Recv().Type()) != ct {
+			continue
+		}
+		// reads the flag in a branch that emits (the reader decides its own emission by it)
+		reads := false
+		var stores []*ssa.Store
+		for _, b := range fn.Blocks {
+			for _, in := range b.Instrs {
+				if u, ok := in.(*ssa.UnOp); ok && u.Op == token.MUL && isFlagAddr(u.X) {
+					if u.Referrers() != nil {
+						for _, r := range *u.Referrers() {
+							if _, isIf := r.(*ssa.If); isIf {
+								reads = true
+							}
+						}
+					}
+				}
+				if s, ok := in.(*ssa.Store); ok && isFlagAddr(s.Addr) {
+					stores = append(stores, s)
+				}
+			}
+		}
+		if !reads {
+			continue
+		}
+		// functions that set the flag themselves for a whole construct (the pipe) are the producers, not readers of this kind
+		setsTrue := false
+		for _, s := range stores {
+			if k, isC := s.Val.(*ssa.Const); isC && k.Value != nil && k.Value.ExactString() == "true" {
+				setsTrue = true
+			}
+		}
+		if setsTrue {
+			continue
+		}
+		n++
+		bad := ""
+		for _, b := range fn.Blocks {
+			for i, in := range b.Instrs {
+				ci, ok := in.(ssa.CallInstruction)
+				if !ok {
+					continue
+				}
+				cal := ci.Common().StaticCallee()
+				if cal == nil || cal.Signature.Recv() == nil || core.NamedOf(cal.Signature.Recv().Type()) != ct {
+					continue
+				}
+				if cal != compile && !strings.HasPrefix(cal.Name(), "compile") {
+					continue
+				}
+				// nearest preceding/dominating store to the flag must be `false`
+				var nearest *ssa.Store
+				for _, s := range stores {
+					sb := s.Block()
+					dominates := false
+					if sb == b {
+						for j, x := range b.Instrs {
+							if x == ssa.Instruction(s) && j < i {
+								dominates = true
+							}
+						}
+					} else if sb.Dominates(b) {
+						dominates = true
+					}
+					if !dominates {
+						continue
+					}
+					if nearest == nil || nearest.Block().Dominates(sb) && nearest.Block() != sb || (nearest.Block() == sb && s.Pos() > nearest.Pos()) {
+						nearest = s
+					}
+				}
+				okc := false
+				if nearest != nil {
+					if k, isC := nearest.Val.(*ssa.Const); isC && k.Value != nil && k.Value.ExactString() == "false" {
+						okc = true
+					}
+				}
+				if !okc {
+					bad = cal.Name() + " at " + p.Pos(in.Pos())
+				}
+			}
+		}
+		c.Check(bad == "", core.SSAName(fn)+"|operands-compiled-with-"+flag.Name()+"-off", p.Pos(fn.Pos()),
+			fn.Name()+" decides by "+flag.Name()+" whether its own call becomes a partial and compiles its operands with the flag switched off"+ifs(bad != "", "; "+bad+" runs with the flag as it was: calls nested in the operands become partials too"))
+	}
+	if n == 0 {
+		core.Undecidedf("no compile function reads %s", flag.Name())
+	}
+}
